@@ -517,6 +517,7 @@ def fmtq(q):
     return '(- %s)' % s if q < 0 else s
 
 
+ABSTRACT_UF = [True]
 UF_ARITY = {'sin': 1, 'cos': 1, 'exp': 1, 'log': 1, 'pow': 2}
 
 
@@ -541,6 +542,13 @@ def emit(roots):
         if op == 'neg':
             body = '(- %s)' % a[0]
         elif op == 'uf':
+            if ABSTRACT_UF[0]:
+                # every distinct application becomes a fresh real (sound for unsat; nlsat stays applicable;
+                # a model that breaks functional consistency cannot survive the concrete replay)
+                nm = 'uf%d_%s' % (n.id, a[0])
+                decls.append('(declare-fun %s () Real)' % nm)
+                name[n.id] = nm
+                continue
             ufs.add((a[0], len(a) - 1))
             body = '(uf_%s %s)' % (a[0], ' '.join(a[1:]))
         else:
